@@ -13,13 +13,16 @@
 package main
 
 import (
+	"context"
 	"errors"
 	"fmt"
 	"os"
+	"reflect"
 	"regexp"
 	"runtime"
 	"sort"
 	"strings"
+	"sync"
 	"time"
 
 	"verif/gen/goprog"
@@ -40,6 +43,12 @@ type family struct {
 	nogc   bool                                          // too big for a gc batch: analytic expectation only
 	// template: decls is the source of a template (index.txt); no gc run
 	template bool
+	// imports of a native family (default: "p")
+	imports []string
+	// base, when set, generates the reference program of a differential family:
+	// the same program without the repeated references. If the base builds, a
+	// limit error for the family's program is spurious.
+	base func(n int) (decls, call string, want string)
 }
 
 func around(points []int, lo, hi int) []int {
@@ -312,7 +321,10 @@ func families(tier string) []family {
 			return b.String(), "f_§()", "42\n"
 		}})
 	}
-	return append(fs, extraFamilies(tier)...)
+	fs = append(fs, extraFamilies(tier)...)
+	fs = append(fs, variadicFamilies()...)
+	fs = append(fs, registerLastStatementFamilies()...)
+	return append(fs, repeatedReferenceFamilies(tier)...)
 }
 
 type testCase struct {
@@ -343,8 +355,32 @@ func nativePkgs() native.Packages {
 		i := i
 		decls[fmt.Sprintf("F%d", i)] = func(x int) int { return x + i }
 	}
-	return native.Packages{"p": native.Package{Name: "p", Declarations: decls}}
+	fold := func(n int, obs func(i int) int) int {
+		t := 0
+		for i := 0; i < n; i++ {
+			t = t*31 + (i+1)*obs(i)
+		}
+		return t*1000 + n
+	}
+	decls["Sum"] = func(xs ...int) int { return fold(len(xs), func(i int) int { return xs[i] }) }
+	decls["SumF"] = func(a int, b string, xs ...int) int {
+		return fold(len(xs), func(i int) int { return xs[i] }) + a + len(b)
+	}
+	decls["Cat"] = func(xs ...string) int {
+		return fold(len(xs), func(i int) int { return len(xs[i])*1000 + int(xs[i][len(xs[i])-1]) })
+	}
+	decls["Any"] = func(xs ...interface{}) int { return fold(len(xs), func(i int) int { return xs[i].(int) }) }
+	decls["Celsius"] = reflect.TypeOf(celsius(0))
+	version := 42
+	decls["Version"] = &version
+	decls["Answer"] = 42
+	return native.Packages{
+		"p":       native.Package{Name: "p", Declarations: decls},
+		"strings": native.Package{Name: "strings", Declarations: native.Declarations{"Builder": reflect.TypeOf(strings.Builder{})}},
+	}
 }
+
+type celsius float64
 
 var limitMsg = regexp.MustCompile(`count exceeded \d+$`)
 
@@ -376,7 +412,7 @@ func runTemplate(src []byte) (r result) {
 
 func runScriggo(src []byte, withNative bool) (r result) {
 	var out []byte
-	opts := &scriggo.BuildOptions{}
+	opts := &scriggo.BuildOptions{AllowGoStmt: true}
 	if withNative {
 		opts.Packages = nativePkgs()
 	}
@@ -391,7 +427,17 @@ func runScriggo(src []byte, withNative bool) (r result) {
 		}
 		return result{class: "other", msg: fmt.Sprintf("Build returned (%T) %v, not a *BuildError", err, err)}
 	}
-	err = p.Run(&scriggo.RunOptions{Print: func(v any) { out, _ = gcref.AppendPrint(out, v) }})
+	// the context only guards against a miscompiled program that blocks for ever
+	ctx, cancel := context.WithTimeout(context.Background(), 5*time.Second)
+	defer cancel()
+	var mu sync.Mutex
+	err = p.Run(&scriggo.RunOptions{Context: ctx, Print: func(v any) {
+		mu.Lock()
+		out, _ = gcref.AppendPrint(out, v)
+		mu.Unlock()
+	}})
+	mu.Lock()
+	defer mu.Unlock()
 	if err != nil {
 		return result{class: "other", out: string(out), msg: fmt.Sprintf("Run returned (%T) %v", err, err)}
 	}
@@ -418,22 +464,38 @@ func spaces(tier string) []kit.Space {
 	gcFam := &goprog.Family{Name: "C20.gc", Batch: 16, Size: uint64(len(gcIdx)), Gen: func(j uint64) goprog.Case { return cases[gcIdx[j]].program(j) }}
 	gcFamilyForPrefill = gcFam
 
+	mkSource := func(ci int, pc goprog.Case, j uint64) []byte {
+		c := cases[ci]
+		if c.fam.native {
+			imports := c.fam.imports
+			if imports == nil {
+				imports = []string{"p"}
+			}
+			hdr := "package main\n\n"
+			for _, im := range imports {
+				hdr += "import \"" + im + "\"\n"
+			}
+			return []byte(hdr + "\n" + pc.Decls + "\n" + pc.Func(j) + fmt.Sprintf("\nfunc main() {\n\tt%d()\n}\n", j))
+		}
+		return pc.Single(j)
+	}
 	source := func(ci int) []byte {
 		c := cases[ci]
 		if c.fam.template {
 			decls, _, _ := c.fam.gen(c.fam.ns[c.k])
 			return []byte(decls)
 		}
-		if c.fam.native {
-			pc := c.program(uint64(ci))
-			return []byte("package main\n\nimport \"p\"\n\n" + pc.Decls + "\n" + pc.Func(uint64(ci)) + fmt.Sprintf("\nfunc main() {\n\tt%d()\n}\n", ci))
-		}
 		j, ok := gcOf[ci]
 		if !ok {
 			j = uint64(ci)
 		}
-		pc := c.program(j)
-		return pc.Single(j)
+		return mkSource(ci, c.program(j), j)
+	}
+	baseSource := func(ci int) []byte {
+		c := cases[ci]
+		decls, call, _ := c.fam.base(c.fam.ns[c.k])
+		tc := testCase{fam: &family{ns: []int{0}, gen: func(int) (string, string, string) { return decls, call, "" }}}
+		return mkSource(ci, tc.program(uint64(ci)), uint64(ci))
 	}
 	eval := func(i uint64) kit.Outcome {
 		ci := int(i)
@@ -456,10 +518,23 @@ func spaces(tier string) []kit.Space {
 		}
 		src := source(ci)
 		run := func(src []byte) result {
-			if c.fam.template {
-				return runTemplate(src)
+			// memoised: the monotonicity check asks again for the smaller n of the sweep
+			key := kit.Hash64(string(src))
+			memoMu.Lock()
+			r, ok := memo[key]
+			memoMu.Unlock()
+			if ok {
+				return r
 			}
-			return runScriggo(src, c.fam.native)
+			if c.fam.template {
+				r = runTemplate(src)
+			} else {
+				r = runScriggo(src, c.fam.native)
+			}
+			memoMu.Lock()
+			memo[key] = r
+			memoMu.Unlock()
+			return r
 		}
 		r := run(src)
 		o := kit.Outcome{OK: true, Nontrivial: true, Ops: n}
@@ -492,6 +567,16 @@ func spaces(tier string) []kit.Space {
 			}
 		case "limit":
 			o.Class = "limit error (" + kit.NormMsg(r.msg) + ")"
+			if c.fam.base != nil {
+				// the program only repeats references of a program that is accepted:
+				// it is within the limits, the refusal is spurious
+				if b := run(baseSource(ci)); b.class == "ok" {
+					o.OK = false
+					o.Class = "SPURIOUS LIMIT ERROR"
+					o.Key = fam + " outcome=spurious-limit-error(" + kit.NormMsg(r.msg) + ")"
+					o.Detail = "the same program without the repeated references builds and runs\n" + detail()
+				}
+			}
 		default:
 			o.OK = false
 			o.Class = "OTHER FAILURE"
@@ -512,6 +597,11 @@ func spaces(tier string) []kit.Space {
 }
 
 var gcFamilyForPrefill *goprog.Family
+
+var (
+	memoMu sync.Mutex
+	memo   = map[uint64]result{}
+)
 
 func main() {
 	master := true
